@@ -72,7 +72,13 @@ ENTRIES = [
       "        trailer_data = b''\n        if raw:\n            trailer_data = yield from reader.read_trailer()\n", 'C08-D4'),
     B('chunk-loop-ends-on-wrong-value', "            if not chunk_size:\n                break", "            if not data:\n                break", 'C08-D4'),
     B('chunk-terminator-lenient', "        if len(newline_data) > 2:", "        if len(newline_data) > 4096:", 'C08-D4', K),
-    B('trailer-single-line', "            if not trailer_data.strip():\n                break\n", "            break\n", 'C08-D4', K),
+    B('trailer-single-line', "            if trailer_data in (b'\\r\\n', b'\\n'):\n                break\n", "            break\n", 'C08-D4', K),
+    B('regress-trailer-strip-test', "            if trailer_data in (b'\\r\\n', b'\\n'):\n                break\n", "            if not trailer_data.strip():\n                break\n", 'C08-D4', K),
+    B('regress-trailer-eof-check', "            if not trailer_data.endswith(b'\\n'):\n                raise NetworkError('Connection closed.')\n\n            trailer_data_list", "            trailer_data_list", 'C08-D4', K),
+    B('header-strip-test', "            elif data in (b'\\r\\n', b'\\n'):\n                break", "            elif not data.strip():\n                break", 'C08-D5'),
+    N('trailer-blank-test-equality', "            if trailer_data in (b'\\r\\n', b'\\n'):\n                break\n", "            if trailer_data == b'\\r\\n' or trailer_data == b'\\n':\n                break\n", K),
+    N('setup-decompressor-table', "        if encoding == 'gzip':\n            self._decompressor = wpull.decompression.GzipDecompressor()\n        elif encoding == 'deflate':\n            self._decompressor = wpull.decompression.DeflateDecompressor()\n        else:\n            self._decompressor = None\n",
+      "        decompressor_class = {\n            'gzip': wpull.decompression.GzipDecompressor,\n            'deflate': wpull.decompression.DeflateDecompressor,\n        }.get(encoding)\n\n        if decompressor_class:\n            self._decompressor = decompressor_class()\n        else:\n            self._decompressor = None\n"),
     # ------------------------------------------------------------------ D5 header block
     B('header-eof-ends-block', "            if not data.endswith(b'\\n'):\n                raise NetworkError('Connection closed.')\n            elif data in (b'\\r\\n', b'\\n'):\n                break",
       "            if not data.endswith(b'\\n') or data in (b'\\r\\n', b'\\n'):\n                break", 'C08-D5'),
